@@ -150,7 +150,11 @@ func Run(out string) {
 }
 
 func reqOpts(v uint32) message.Options {
-	o := message.Options{{ID: message.URIPath, Value: []byte("a")}, {ID: message.NoResponse, Value: encUint(v)}}
+	o := message.Options{{ID: message.URIPath, Value: []byte("a")}}
+	if v%3 == 0 { // every third value: an option the parser skips (a Max-Age of 5 bytes - the legal maximum is 4) precedes No-Response
+		o = append(o, message.Option{ID: message.MaxAge, Value: []byte{1, 2, 3, 4, 5}})
+	}
+	o = append(o, message.Option{ID: message.NoResponse, Value: encUint(v)})
 	if v%2 == 1 { // every second value: No-Response is not the last option of the request
 		o = append(o, message.Option{ID: message.OptionID(2053), Value: []byte{8, 0}})
 	}
